@@ -34,11 +34,13 @@ var c06Forms = []refForm{
 	{"rel-query", func(m string) string { return "rel/" + m + ".jpg?a=1&b=2" }},
 	{"comma-path", func(m string) string { return "/cdn/w_400,c_fill/" + m + ".jpg" }},
 	{"comma-rel", func(m string) string { return "cdn/w_400,h_300/" + m + ".jpg" }},
+	{"embeds-url", func(m string) string { return "thumb.php?m=" + m + "&src=http://cdn.example/x.jpg" }},
+	{"embeds-url-root", func(m string) string { return "/web/2020/" + m + "/https://archived.example/y.jpg" }},
 	{"empty", func(m string) string { return "" }},
 }
 
 // positions: each is a hole in the host document
-var c06Positions = []string{"a-para", "a-li", "a-caption", "a-cell", "img-src", "img-srcset1", "img-srcset2", "img-lazy", "source-srcset", "video-src", "video-poster", "vsource-src", "track-src", "img-in-table", "figure-img", "picture-img", "a-block-h2", "a-inline-block", "video-only-poster"}
+var c06Positions = []string{"a-para", "a-li", "a-caption", "a-cell", "img-src", "img-srcset1", "img-srcset2", "img-lazy", "source-srcset", "video-src", "video-poster", "vsource-src", "track-src", "img-in-table", "figure-img", "picture-img", "a-block-h2", "a-inline-block", "video-only-poster", "a-wrap-em", "a-wrap-span-li"}
 
 func c06Doc(assign map[int]int) string {
 	t := &ora.Tok{}
@@ -65,6 +67,8 @@ func c06Doc(assign map[int]int) string {
 	sb.WriteString("<video src=\"" + u("video-src") + "\" poster=\"" + u("video-poster") + "\" width=\"400\" height=\"300\"><source src=\"" + u("vsource-src") + "\"><track src=\"" + u("track-src") + "\"></video>" + pc())
 	sb.WriteString("<h2><a style=\"display:block\" href=\"" + u("a-block-h2") + "\">" + t.W(4) + "</a></h2>" + pc())
 	sb.WriteString("<div><a style=\"display: inline-block\" href=\"" + u("a-inline-block") + "\">" + t.W(18) + "</a></div>" + pc())
+	sb.WriteString("<h3><a href=\"" + u("a-wrap-em") + "\"><em>" + t.W(5) + "</em></a></h3>" + pc())
+	sb.WriteString("<ul><li><a href=\"" + u("a-wrap-span-li") + "\"><span>" + t.W(12) + "</span></a></li><li>" + t.W(11) + "</li></ul>" + pc())
 	sb.WriteString("<video poster=\"" + u("video-only-poster") + "\" width=\"400\" height=\"300\"></video>" + pc())
 	sb.WriteString("<table><tr><th>" + t.W(1) + "</th><th>" + t.W(1) + "</th></tr><tr><td>" + t.W(1) + " <img src=\"" + u("img-in-table") + "\"></td><td><a href=\"" + u("a-cell") + "\">" + t.W(1) + "</a></td></tr><tr><td>" + t.W(1) + "</td><td>" + t.W(1) + "</td></tr></table>" + pc())
 	sb.WriteString("</div></body></html>")
@@ -87,6 +91,9 @@ func c06Enumerate(tier string, emit func(*eng.Case)) {
 	var rec func(start int, assign map[int]int, k int)
 	rec = func(start int, assign map[int]int, k int) {
 		for ui, pu := range c06PageURLs {
+			if tier != "thorough" && k == 2 && ui >= 2 {
+				continue // quick: pairs under two of the four page URLs
+			}
 			var d []string
 			for i := 0; i < nPos; i++ {
 				if f, ok := assign[i]; ok {
@@ -247,8 +254,8 @@ func init() {
 	eng.Register(&eng.Prop{
 		ID:        "C06",
 		DesignRef: "§5 C06",
-		Rule: "host document with 19 URL-carrying positions (block-styled anchors that become the root of their text block, a video with only a poster, a[href] in paragraph/list item/caption/table cell; img src, two srcset candidates, lazy data-src, picture source srcset + img, figure img, video src/poster, video source/track src, img in table), each defaulting to an absolute URL with a unique marker; " +
-			"every assignment of <= 2 (quick) / <= 3 (thorough) positions to one of 15 non-default reference forms (paths containing commas, path-relative, ./, ../, root-relative, scheme-relative, query-only, fragment, data:, javascript:, https absolute, unparseable, relative with query, empty) x 4 page URLs. " +
+		Rule: "host document with 21 URL-carrying positions (anchors wrapping a single inline element, block-styled anchors that become the root of their text block, a video with only a poster, a[href] in paragraph/list item/caption/table cell; img src, two srcset candidates, lazy data-src, picture source srcset + img, figure img, video src/poster, video source/track src, img in table), each defaulting to an absolute URL with a unique marker; " +
+			"every assignment of <= 2 (quick) / <= 3 (thorough) positions to one of 17 non-default reference forms (relative references that embed another absolute URL, paths containing commas, path-relative, ./, ../, root-relative, scheme-relative, query-only, fragment, data:, javascript:, https absolute, unparseable, relative with query, empty) x 4 page URLs. " +
 			"Oracle: each URL attribute/srcset candidate of result.Node outside embed placeholders and each ContentImages entry, traced to its original by marker, equals the statement's rule (pass-through or RFC 3986 resolution against the page URL) and is absolute when resolved. Non-trivial = >= 1 relative reference reached the output.",
 		Enumerate: c06Enumerate,
 		Check:     c06Check,
